@@ -1255,14 +1255,14 @@ def all_cases(ctx):
     big = ctx.tier == "thorough"
     rng = ctx.rng
     cases = corpus_cases()
-    per = ctx.budget(140, 2500)
+    per = ctx.budget(100, 2500)
     fam = ctx.budget(1, 12)
     for s in SOLVERS:
         cases += [gen_case(rng, s, big) for _ in range(per)]
-        cases += [fam_L(rng, s, big) for _ in range(30 * fam)]
-        cases += [fam_M(rng, s, big) for _ in range(30 * fam)]
+        cases += [fam_L(rng, s, big) for _ in range(24 * fam)]
+        cases += [fam_M(rng, s, big) for _ in range(24 * fam)]
         cases += [c for c in (fam_I(rng, s, big) for _ in range(16 * fam)) if c]
-        cases += [fam_H(rng, s, big) for _ in range(30 * fam)]
+        cases += [fam_H(rng, s, big) for _ in range(24 * fam)]
         for _ in range(fam):
             cases += fam_O(rng, s, big)
         cases += [fam_S(rng, s, big) for _ in range(2 if not big else 8)]
@@ -1318,8 +1318,9 @@ def run_part_a(ctx: Ctx):
                 continue
             terms[kind].append(term)
             metas[kind].append((case, rr))
-            specs.append(spec)
-            spec_meta.append((case, rr))
+            if rr is a or case["family"] in ("M", "L"):  # the Coq spec checker: primary runs (both runs for M and L)
+                specs.append(spec)
+                spec_meta.append((case, rr))
             ctx.traces_validated += 1
 
     disagree = []
